@@ -9,7 +9,7 @@
     start/end line/column statements for tokens and errors are tested by the check's oracle. *)
 From Coq Require Import NArith List.
 From SasLexer Require Import Gen.TokenType Gen.ErrorKind Gen.Channel Model.Base Model.Core Model.Buffer
-     Model.Lexer3 Proofs.Generic Proofs.Lines Proofs.LexLines.
+     Model.Lexer3 Spec.RefLex Proofs.Generic Proofs.Lines Proofs.LexLines Proofs.OcAll Proofs.MacroFree.
 Import ListNotations.
 Open Scope N_scope.
 
@@ -31,6 +31,20 @@ Theorem C04_line_count : forall (cfg : config) (src : list char),
 Proof. exact lex_line_count. Qed.
 Print Assumptions C04_line_count.
 
+(** On macro-free texts (release profile) the premises are discharged: the simulation behind
+    [C11_lexer_is_reference] also shows, lexeme class by lexeme class, that every line feed the
+    open-code handlers consume (in whitespace, comments, quoted literals, datalines bodies) is
+    followed by its [add_line] before the table is observed, and that no [advance_by] (character
+    formats, numeric literals, ampersand runs) crosses a line feed.  So the returned line table is
+    exactly the first line start followed by the position after every line feed, for every
+    macro-free text of any length. *)
+Theorem C04_macro_free_line_table : forall (msep : bool) (src : list char),
+  macro_free (body_of src) = true ->
+  let b := lr_buffer (lex (mkCfg false msep) src) in
+  b_lines b = first_line src :: starts_from 0 0 src /\ len (b_lines b) = 1 + count_nl src.
+Proof. exact mf_C04_macro_free_line_table. Qed.
+Print Assumptions C04_macro_free_line_table.
+
 (** the invariant behind it holds for every program over the primitives *)
 Theorem C04_every_program : forall first src (d : bool) (A : Type) (p : prog A) (s : st),
   InvPos src s -> LInv first src s ->
@@ -45,4 +59,11 @@ Example c04_example :
   let r := lex (mkCfg true false) src in
   (lr_outcome r, g_lines_ok (s_ghost (lr_state r)), g_line_debt (s_ghost (lr_state r)), c_rest (s_cur (lr_state r)))
   = (None, true, false, []) /\ map l_byte (b_lines (lr_buffer r)) = [0; 3; 8; 12].
+Proof. vm_compute. split; reflexivity. Qed.
+
+(** ... and a macro-free text with line feeds in whitespace, a comment, a string, a datalines body *)
+Example c04_macro_free_example :
+  let src := [120; 10; 47; 42; 10; 42; 47; 39; 97; 10; 39; 59; 99; 97; 114; 100; 115; 59; 10; 49; 10; 59; 10] in
+  macro_free (body_of src) = true /\
+  map l_byte (b_lines (lr_buffer (lex (mkCfg false false) src))) = [0; 2; 5; 10; 19; 21; 23].
 Proof. vm_compute. split; reflexivity. Qed.
